@@ -178,3 +178,61 @@ Theorem C12_locked_accumulator_order_independent : forall (M : Type) (op : M -> 
   forall (l l' : list M), Permutation l l' -> msum op e l = msum op e l'.
 Proof. exact locked_accumulator_order_independent. Qed.
 Print Assumptions C12_locked_accumulator_order_independent.
+
+(* (x) The work-item list is state of the module (colvars_smp / colvars_smp_items survive between steps) that calc_colvars
+   rebuilds at every step: the list used at step t does not depend on the list left by earlier steps and is a function of the
+   active set of step t alone; along any history the k-th list is the item list of the active set of step t+k.  A variant that
+   keeps the old list when the item COUNT is unchanged is wrong as soon as two variables with timeStepFactor 2 and 3 alternate
+   (SmpProofs.rebuild_items_cached_refuted; the check generates such configurations in the quick tier). *)
+Theorem C12_item_list_depends_only_on_active_set : forall (old old' : list (nat * nat)) (c c' : cfg) (t t' : nat),
+  active_vars t (prep_vars t (c_vars c)) = active_vars t' (prep_vars t' (c_vars c')) ->
+  rebuild_items old c t = rebuild_items old' c' t'.
+Proof. exact rebuild_items_active_set. Qed.
+Print Assumptions C12_item_list_depends_only_on_active_set.
+
+Theorem C12_item_list_history : forall (old : list (nat * nat)) (c : cfg) (t n k : nat), k < n ->
+  exists ck, nth k (items_history rebuild_items old c t n) [] = build_items (active_vars (t + k) (prep_vars (t + k) (c_vars ck))).
+Proof. intros old c t n k. apply items_history_spec. Qed.
+Print Assumptions C12_item_list_history.
+
+(* (xi) The step that raises "All CVCs are disabled".  FULL STATEMENT (false of the code): forall c t s l,
+   run (serial_cvc_items_err c t) s l = run (smp_cvc_items_err c t) s l.  The serial path returns at the failing variable, the
+   SMP path finishes the step: the variable values after such a step depend on the SMP mode (known finding
+   error-step:serial-returns-early, replayed on the implementation on every run). *)
+Theorem C12_error_step_refuted : exists (c : cfg) (t : nat) (s : store) (l : loc),
+  step_error c t = true /\ run loc_eqb (serial_cvc_items_err c t) s l <> run loc_eqb (smp_cvc_items_err c t) s l.
+Proof. exact error_step_paths_differ. Qed.
+Print Assumptions C12_error_step_refuted.
+
+Theorem C12_error_step_partial : forall (c : cfg) (t : nat) (s : store),
+  step_error c t = false ->
+  (forall p, In p (active_vars t (prep_vars t (c_vars c))) -> any_true (v_flags (snd p)) = true) ->
+  forall l, run loc_eqb (serial_cvc_items_err c t) s l = run loc_eqb (smp_cvc_items_err c t) s l.
+Proof. exact error_free_step_paths_agree. Qed.
+Print Assumptions C12_error_step_partial.
+
+(* (xii) Small steps.  An item is a read phase (copy what it looks at), a computation and a write phase; a trace is any
+   sequence of read/write phases in which an item is read only while it is not in flight and written only while it is
+   (valid_trace), so the phases of items running on different threads interleave freely.  If the items respect their footprints
+   and are pairwise independent and every item commits exactly once, the store after the trace equals, location by location,
+   the store of the atomic serial execution.  (C12_order_independent at the granularity of phases; every execution of threads that
+   each run their queue item after item is such a trace - thread_mops, valid_thread - and so is any interleaving of them.) *)
+Theorem C12_small_step_schedule_independent : forall (L V : Type) (eqb : L -> L -> bool),
+  (forall a b, eqb a b = true <-> a = b) ->
+  forall (items : list (item L V)), Forall wf items -> Pairwise indep items ->
+  forall (tr : list mop) (s : L -> V),
+  valid_trace tr [] -> Permutation (wr_order tr) (seq 0 (length items)) ->
+  seq_eq (mrun eqb items tr s []) (run eqb items s).
+Proof. exact small_step_stmt. Qed.
+Print Assumptions C12_small_step_schedule_independent.
+
+(* a genuinely interleaved trace of three items on two threads: both threads read before either writes *)
+Example C12_small_step_example :
+  let tr := [Rd 2; Rd 0; Wr 0; Wr 2; Rd 1; Wr 1] in
+  valid_trace tr [] /\ wr_order tr = [0; 2; 1] /\ Permutation (wr_order tr) (seq 0 3).
+Proof.
+  cbv zeta. split; [|split].
+  - cbn. repeat split; auto; intros H; repeat (destruct H as [H|H]; try discriminate); auto.
+  - reflexivity.
+  - cbn. apply perm_skip. apply perm_swap.
+Qed.
